@@ -94,7 +94,10 @@ def eval_arcdate(env, group):
                         continue
                     frm = ' from . archives' + mode + w
                     q = 'path, %s%s order by %s%s into list' % (key, frm, key, ' desc' if desc else '')
-                    o = env.run([q], cwd=root, preload=True, env={'FSX_READDIR': rd})
+                    envx = {'FSX_READDIR': rd}
+                    if wi == 2:
+                        envx['FSX_NOW'] = '1709208000'       # today is 29 February: a date without a 1970 twin
+                    o = env.run([q], cwd=root, preload=True, env=envx)
                     o0 = env.run(['path, %s%s into list' % (key, frm)], cwd=root, preload=True, env={'FSX_READDIR': rd})
                     rows, rows0 = o.rows(2), o0.rows(2)
                     res = {'case': {'kind': 'arcdate', 'key': key, 'desc': desc, 'variant': variant, 'query': q}, 'layer': 'archive-dates', 'nt': True,
